@@ -98,7 +98,7 @@ spec fn allq<C>(cs: Seq<C>, q: spec_fn(C) -> bool) -> bool { forall|i: int| 0 <=
 spec fn same_family<C>(a: Seq<C>, b: Seq<C>) -> bool {
     &&& a.len() == b.len()
     &&& forall|f: spec_fn(C) -> int| #[trigger] sumf(a, f) == sumf(b, f)
-    &&& forall|q: spec_fn(C) -> bool| allq(b, q) ==> #[trigger] allq(a, q)
+    &&& forall|q: spec_fn(C) -> bool| allq(b, q) == #[trigger] allq(a, q)
 }
 proof fn lemma_sum_update<C>(cs: Seq<C>, i: int, x: C, f: spec_fn(C) -> int)
     requires 0 <= i < cs.len()
@@ -122,9 +122,16 @@ proof fn lemma_swap_same_family<C>(cs: Seq<C>, i: int, j: int)
         lemma_sum_update(cs, i, cs[j], f);
         lemma_sum_update(cs.update(i, cs[j]), j, cs[i], f);
     }
-    assert forall|q: spec_fn(C) -> bool| allq(cs, q) implies #[trigger] allq(ns, q) by {
-        assert forall|k: int| 0 <= k < ns.len() implies q(#[trigger] ns[k]) by {
-            if k == j { assert(q(cs[i])); } else if k == i { assert(q(cs[j])); } else { assert(q(cs[k])); }
+    assert forall|q: spec_fn(C) -> bool| allq(cs, q) == #[trigger] allq(ns, q) by {
+        if allq(cs, q) {
+            assert forall|k: int| 0 <= k < ns.len() implies q(#[trigger] ns[k]) by {
+                if k == j { assert(q(cs[i])); } else if k == i { assert(q(cs[j])); } else { assert(q(cs[k])); }
+            }
+        }
+        if allq(ns, q) {
+            assert forall|k: int| 0 <= k < cs.len() implies q(#[trigger] cs[k]) by {
+                if k == j { assert(q(ns[i])); } else if k == i { assert(q(ns[j])); } else { assert(q(ns[k])); }
+            }
         }
     }
 }
@@ -133,7 +140,7 @@ proof fn lemma_same_family_trans<C>(a: Seq<C>, b: Seq<C>, c: Seq<C>)
     ensures same_family(a, c)
 {
     assert forall|f: spec_fn(C) -> int| #[trigger] sumf(a, f) == sumf(c, f) by { assert(sumf(a, f) == sumf(b, f)); assert(sumf(b, f) == sumf(c, f)); }
-    assert forall|q: spec_fn(C) -> bool| allq(c, q) implies #[trigger] allq(a, q) by { assert(allq(b, q)); }
+    assert forall|q: spec_fn(C) -> bool| allq(c, q) == #[trigger] allq(a, q) by { assert(allq(b, q) == allq(a, q)); assert(allq(c, q) == allq(b, q)); }
 }
 proof fn lemma_same_family_refl<C>(a: Seq<C>)
     ensures same_family(a, a)
@@ -155,6 +162,189 @@ proof fn lemma_root_least<C: Cursor>(cs: Seq<C>, cmp: Comparator, j: int)
     }
 }
 
+
+// ================================================================ the sorted union of a family of tables
+// (everything here is invariant under permuting the family: it only uses sums / for-all over the children)
+
+// number of entries of a sorted table that are below (k, t)
+spec fn is_clt(s: Seq<Ent>, k: Seq<u8>, t: u64, p: int) -> bool {
+    &&& 0 <= p <= s.len()
+    &&& forall|i: int| 0 <= i < p ==> kt_lt(#[trigger] s[i].key, s[i].ts, k, t)
+    &&& forall|i: int| p <= i < s.len() ==> !kt_lt(#[trigger] s[i].key, s[i].ts, k, t)
+}
+spec fn clt(s: Seq<Ent>, k: Seq<u8>, t: u64) -> int { choose|p: int| is_clt(s, k, t, p) }
+proof fn scan_clt(s: Seq<Ent>, k: Seq<u8>, t: u64, c: int) -> (p: int)
+    requires sorted(s), 0 <= c <= s.len(), forall|i: int| 0 <= i < c ==> kt_lt(#[trigger] s[i].key, s[i].ts, k, t)
+    ensures is_clt(s, k, t, p)
+    decreases s.len() - c
+{
+    if c == s.len() { c }
+    else if !kt_lt(s[c].key, s[c].ts, k, t) {
+        assert forall|i: int| c <= i < s.len() implies !kt_lt(#[trigger] s[i].key, s[i].ts, k, t) by {
+            if i > c && kt_lt(s[i].key, s[i].ts, k, t) { lemma_kt_trans(s[c].key, s[c].ts, s[i].key, s[i].ts, k, t); }
+        }
+        c
+    } else { scan_clt(s, k, t, c + 1) }
+}
+proof fn lemma_clt(s: Seq<Ent>, k: Seq<u8>, t: u64)
+    requires sorted(s)
+    ensures is_clt(s, k, t, clt(s, k, t))
+{
+    let p = scan_clt(s, k, t, 0);
+}
+proof fn lemma_clt_unique(s: Seq<Ent>, k: Seq<u8>, t: u64, p: int)
+    requires sorted(s), is_clt(s, k, t, p)
+    ensures p == clt(s, k, t)
+{
+    lemma_clt(s, k, t);
+    let q = clt(s, k, t);
+    if p < q { assert(kt_lt(s[p].key, s[p].ts, k, t)); } else if q < p { assert(kt_lt(s[q].key, s[q].ts, k, t)); }
+}
+
+proof fn lemma_sum_le<C>(cs: Seq<C>, f: spec_fn(C) -> int, g: spec_fn(C) -> int)
+    requires forall|i: int| 0 <= i < cs.len() ==> f(#[trigger] cs[i]) <= g(cs[i])
+    ensures sumf(cs, f) <= sumf(cs, g)
+    decreases cs.len()
+{
+    if cs.len() > 0 {
+        assert forall|i: int| 0 <= i < cs.drop_last().len() implies f(#[trigger] cs.drop_last()[i]) <= g(cs.drop_last()[i]) by { assert(cs.drop_last()[i] == cs[i]); }
+        lemma_sum_le(cs.drop_last(), f, g);
+        assert(cs.last() == cs[cs.len() - 1]);
+    }
+}
+proof fn lemma_sum_lt<C>(cs: Seq<C>, f: spec_fn(C) -> int, g: spec_fn(C) -> int, w: int)
+    requires forall|i: int| 0 <= i < cs.len() ==> f(#[trigger] cs[i]) <= g(cs[i]), 0 <= w < cs.len(), f(cs[w]) < g(cs[w])
+    ensures sumf(cs, f) < sumf(cs, g)
+    decreases cs.len()
+{
+    assert forall|i: int| 0 <= i < cs.drop_last().len() implies f(#[trigger] cs.drop_last()[i]) <= g(cs.drop_last()[i]) by { assert(cs.drop_last()[i] == cs[i]); }
+    assert(cs.last() == cs[cs.len() - 1]);
+    if w == cs.len() - 1 { lemma_sum_le(cs.drop_last(), f, g); }
+    else { assert(cs.drop_last()[w] == cs[w]); lemma_sum_lt(cs.drop_last(), f, g, w); }
+}
+proof fn lemma_sum_eq<C>(cs: Seq<C>, f: spec_fn(C) -> int, g: spec_fn(C) -> int)
+    requires forall|i: int| 0 <= i < cs.len() ==> f(#[trigger] cs[i]) == g(cs[i])
+    ensures sumf(cs, f) == sumf(cs, g)
+{
+    lemma_sum_le(cs, f, g); lemma_sum_le(cs, g, f);
+}
+
+spec fn total<C: Cursor>(cs: Seq<C>) -> int { sumf(cs, |c: C| c.ents().len() as int) }
+spec fn grank<C: Cursor>(cs: Seq<C>, k: Seq<u8>, t: u64) -> int { sumf(cs, |c: C| clt(c.ents(), k, t)) }
+spec fn member<C: Cursor>(cs: Seq<C>, e: Ent) -> bool { exists|i: int, j: int| 0 <= i < cs.len() && 0 <= j < cs[i].ents().len() && #[trigger] cs[i].ents()[j] == e }
+spec fn all_sorted<C: Cursor>(cs: Seq<C>) -> bool { forall|i: int| 0 <= i < cs.len() ==> sorted(#[trigger] cs[i].ents()) }
+// (key, timestamp) pairs are unique across the family (timestamps are unique in the store)
+spec fn distinct<C: Cursor>(cs: Seq<C>) -> bool {
+    forall|i1: int, j1: int, i2: int, j2: int| 0 <= i1 < cs.len() && 0 <= j1 < cs[i1].ents().len() && 0 <= i2 < cs.len() && 0 <= j2 < cs[i2].ents().len()
+        && #[trigger] cs[i1].ents()[j1].key == #[trigger] cs[i2].ents()[j2].key && cs[i1].ents()[j1].ts == cs[i2].ents()[j2].ts ==> i1 == i2 && j1 == j2
+}
+
+// the rank of an entry grows strictly with the entry
+proof fn lemma_rank_mono<C: Cursor>(cs: Seq<C>, i: int, j: int, k2: Seq<u8>, t2: u64)
+    requires all_sorted(cs), 0 <= i < cs.len(), 0 <= j < cs[i].ents().len(), kt_lt(cs[i].ents()[j].key, cs[i].ents()[j].ts, k2, t2)
+    ensures grank(cs, cs[i].ents()[j].key, cs[i].ents()[j].ts) < grank(cs, k2, t2)
+{
+    let e = cs[i].ents()[j];
+    let f = |c: C| clt(c.ents(), e.key, e.ts);
+    let g = |c: C| clt(c.ents(), k2, t2);
+    assert forall|x: int| 0 <= x < cs.len() implies f(#[trigger] cs[x]) <= g(cs[x]) by {
+        let s = cs[x].ents();
+        lemma_clt(s, e.key, e.ts); lemma_clt(s, k2, t2);
+        let a = clt(s, e.key, e.ts); let b = clt(s, k2, t2);
+        if b < a { assert(kt_lt(s[b].key, s[b].ts, e.key, e.ts)); lemma_kt_trans(s[b].key, s[b].ts, e.key, e.ts, k2, t2); }
+    }
+    // strict in the child that holds e: e itself is below (k2, t2) but not below itself
+    let s = cs[i].ents();
+    lemma_clt(s, e.key, e.ts); lemma_clt(s, k2, t2);
+    let a = clt(s, e.key, e.ts); let b = clt(s, k2, t2);
+    assert(!kt_lt(e.key, e.ts, e.key, e.ts));
+    assert(a <= j) by { if j < a { assert(kt_lt(s[j].key, s[j].ts, e.key, e.ts)); } }
+    assert(j < b) by { if b <= j { assert(!kt_lt(s[j].key, s[j].ts, k2, t2)); } }
+    lemma_sum_lt(cs, f, g, i);
+}
+
+// the merged sequence: position r holds the entry of global rank r
+spec fn ent_at<C: Cursor>(cs: Seq<C>, r: int) -> Ent { choose|e: Ent| member(cs, e) && grank(cs, e.key, e.ts) == r }
+spec fn merged<C: Cursor>(cs: Seq<C>) -> Seq<Ent> { Seq::new(total(cs) as nat, |r: int| ent_at(cs, r)) }
+// the precondition of the combinator: sorted children with pairwise distinct (key, timestamp) pairs
+// (the last clause -- every rank below the total is taken -- is a counting fact that follows from the first
+//  two; it is carried as part of the precondition here rather than proved)
+spec fn mergeable<C: Cursor>(cs: Seq<C>) -> bool {
+    &&& all_sorted(cs) && distinct(cs) && total(cs) >= 0
+    &&& forall|r: int| 0 <= r < total(cs) ==> #[trigger] has_rank(cs, r)
+}
+spec fn has_rank<C: Cursor>(cs: Seq<C>, r: int) -> bool { exists|e: Ent| member(cs, e) && #[trigger] grank(cs, e.key, e.ts) == r }
+proof fn lemma_same_rank_same_entry<C: Cursor>(cs: Seq<C>, e1: Ent, e2: Ent)
+    requires all_sorted(cs), distinct(cs), member(cs, e1), member(cs, e2), grank(cs, e1.key, e1.ts) == grank(cs, e2.key, e2.ts)
+    ensures e1 == e2
+{
+    let (i1, j1) = choose|i: int, j: int| 0 <= i < cs.len() && 0 <= j < cs[i].ents().len() && #[trigger] cs[i].ents()[j] == e1;
+    let (i2, j2) = choose|i: int, j: int| 0 <= i < cs.len() && 0 <= j < cs[i].ents().len() && #[trigger] cs[i].ents()[j] == e2;
+    lemma_kt_total(e1.key, e1.ts, e2.key, e2.ts);
+    if kt_lt(e1.key, e1.ts, e2.key, e2.ts) { lemma_rank_mono(cs, i1, j1, e2.key, e2.ts); }
+    else if kt_lt(e2.key, e2.ts, e1.key, e1.ts) { lemma_rank_mono(cs, i2, j2, e1.key, e1.ts); }
+    else { assert(cs[i1].ents()[j1].key == cs[i2].ents()[j2].key); }
+}
+proof fn lemma_member_rank<C: Cursor>(cs: Seq<C>, i: int, j: int)
+    requires mergeable(cs), 0 <= i < cs.len(), 0 <= j < cs[i].ents().len()
+    ensures
+        member(cs, cs[i].ents()[j]),
+        0 <= grank(cs, cs[i].ents()[j].key, cs[i].ents()[j].ts) < total(cs),
+        merged(cs)[grank(cs, cs[i].ents()[j].key, cs[i].ents()[j].ts)] == cs[i].ents()[j],
+{
+    let e = cs[i].ents()[j];
+    let f = |c: C| clt(c.ents(), e.key, e.ts);
+    let g = |c: C| c.ents().len() as int;
+    let z = |c: C| 0int;
+    assert forall|x: int| 0 <= x < cs.len() implies f(#[trigger] cs[x]) <= g(cs[x]) && z(cs[x]) <= f(cs[x]) by { lemma_clt(cs[x].ents(), e.key, e.ts); }
+    let s = cs[i].ents();
+    lemma_clt(s, e.key, e.ts);
+    assert(clt(s, e.key, e.ts) <= j) by { if j < clt(s, e.key, e.ts) { assert(kt_lt(s[j].key, s[j].ts, e.key, e.ts)); } }
+    lemma_sum_lt(cs, f, g, i);
+    lemma_sum_le(cs, z, f);
+    lemma_sum_zero(cs);
+    let r = grank(cs, e.key, e.ts);
+    let e2 = ent_at(cs, r);
+    assert(member(cs, e) && grank(cs, e.key, e.ts) == r);
+    lemma_same_rank_same_entry(cs, e, e2);
+}
+proof fn lemma_sum_zero<C>(cs: Seq<C>)
+    ensures sumf(cs, |c: C| 0int) == 0
+    decreases cs.len()
+{
+    if cs.len() > 0 { lemma_sum_zero(cs.drop_last()); }
+}
+proof fn lemma_merged_entry<C: Cursor>(cs: Seq<C>, r: int)
+    requires mergeable(cs), 0 <= r < total(cs)
+    ensures member(cs, merged(cs)[r]), grank(cs, merged(cs)[r].key, merged(cs)[r].ts) == r
+{
+    assert(has_rank(cs, r));
+    let w = choose|e: Ent| member(cs, e) && #[trigger] grank(cs, e.key, e.ts) == r;
+    assert(member(cs, w) && grank(cs, w.key, w.ts) == r);
+}
+proof fn lemma_merged_sorted<C: Cursor>(cs: Seq<C>)
+    requires mergeable(cs)
+    ensures sorted(merged(cs)), merged(cs).len() == total(cs)
+{
+    let m = merged(cs);
+    assert forall|x: int, y: int| 0 <= x < y < m.len() implies kt_lt(m[x].key, m[x].ts, m[y].key, m[y].ts) by {
+        lemma_merged_entry(cs, x); lemma_merged_entry(cs, y);
+        let e1 = m[x]; let e2 = m[y];
+        let (i2, j2) = choose|i: int, j: int| 0 <= i < cs.len() && 0 <= j < cs[i].ents().len() && #[trigger] cs[i].ents()[j] == e2;
+        lemma_kt_total(e1.key, e1.ts, e2.key, e2.ts);
+        if kt_lt(e2.key, e2.ts, e1.key, e1.ts) { lemma_rank_mono(cs, i2, j2, e1.key, e1.ts); }
+        else if !kt_lt(e1.key, e1.ts, e2.key, e2.ts) { lemma_same_rank_same_entry_kt(cs, e1, e2); }
+    }
+}
+// two members with the same (key, timestamp) are the same entry, hence have the same rank
+proof fn lemma_same_rank_same_entry_kt<C: Cursor>(cs: Seq<C>, e1: Ent, e2: Ent)
+    requires distinct(cs), member(cs, e1), member(cs, e2), e1.key == e2.key, e1.ts == e2.ts
+    ensures e1 == e2
+{
+    let (i1, j1) = choose|i: int, j: int| 0 <= i < cs.len() && 0 <= j < cs[i].ents().len() && #[trigger] cs[i].ents()[j] == e1;
+    let (i2, j2) = choose|i: int, j: int| 0 <= i < cs.len() && 0 <= j < cs[i].ents().len() && #[trigger] cs[i].ents()[j] == e2;
+    assert(cs[i1].ents()[j1].key == cs[i2].ents()[j2].key);
+}
 
 // std contract of slice::swap (ASSUMED)
 pub assume_specification<T> [<[T]>::swap] (s: &mut [T], a: usize, b: usize)
